@@ -260,9 +260,9 @@ def mapping_docs(ctx, prefix, case, built, mapdim, docs, src):
     """A tagged document is a dict whatever its concrete class: the same document as an instance of a dict subclass at the Union position
     is dispatched exactly like the plain dict — same member class and value for an assigned tag, the same ParseError (valid_tags, input_tag) for
     an unassigned / missing one.  `docs`: [(label, plain document, outcome of the plain load)].
-    Kept out (genuine defect of the unchanged library, /tmp/ag/Q/findings/defaultdict-missing-tag-typeerror.py): a defaultdict WITH a factory
-    that lacks the tag key — the default engine's `o[tag_key]` asks the factory (TypeError for list, and the key is written into the input);
-    tag-less documents use defaultdict(None)."""
+    (A defaultdict WITH a factory that lacks the tag key used to be kept out: `o[tag_key]` asked the factory — TypeError for list, and the
+    key was written into the input.  Repaired by 6c8d086 / 6c6020b; tag-less documents now keep their factory, the input must come back
+    unchanged, findings/defaultdict-missing-tag-mutates-input.py is the directed regression.)"""
     from dataclass_wizard import fromdict
     kind, scope, factory = mapdim
     for label, doc, plain in docs:
@@ -271,9 +271,13 @@ def mapping_docs(ctx, prefix, case, built, mapdim, docs, src):
             got = load_outcome(lambda: built.root.from_json(text, object_pairs_hook=collections.OrderedDict))
             how = 'from_json(text, object_pairs_hook=OrderedDict)'
         else:
-            fac = None if label == 'bad-missing' else factory
+            fac = factory
             md = as_mapping(copy.deepcopy(doc), kind, scope, fac)
+            before = repr(md)
             got = load_outcome(lambda: fromdict(built.root, md))
+            if repr(md) != before:
+                ctx.fail(f'{prefix}:mapping:input-mutated', dict(case, mapping=[kind, scope, getattr(factory, '__name__', None)], which=label),
+                         f'the load wrote into the document it was given: {before[:300]} -> {repr(md)[:300]}', detail=src)
             how = f'fromdict of {kind} mappings ({scope} levels' + (f', factory {getattr(fac, "__name__", fac)}' if kind == 'default' else '') + ')'
         c = dict(case, mapping=[kind, scope, getattr(factory, '__name__', None)], which=label, doc=repr(doc)[:400])
         ctx.seen(f'{prefix}:mapping:{kind}', c)
